@@ -67,7 +67,8 @@ def _validate(chk, traces, stats):
       rejected += 1
       for c in sorted(clauses):
         stats[f'rejected:{ev["cls"]}:{c}'] += 1
-        sig = {'op': ev['cls'], 'clause': c, 'error': ' '.join(ev['raised'].split()[:3]) if c == 'NoRaise' else ''}
+        sig = {'op': ev['cls'], 'clause': c, 'error': ' '.join(ev['raised'].split()[:3]) if c == 'NoRaise' else '',
+               'space': tr['space']}
         known = chk.violation(sig, {'trace': tr['id'], 'space': tr['space'], 'event_index': idx, 'operator': ev['op'],
                                     'seed': ev['seed'], 'inputs': [x['dna'] for x in ev['in']],
                                     'outputs': [{k: o[k] for k in ('id', 'dna', 'valid', 'aligned')} for o in ev['out']],
